@@ -34,11 +34,11 @@
      t_process_input, H_ready (input_ready_handler: C06), H_received (the hand-off: C18);
      G_pop ... G_handler: the hypotheses of [spec_all]; [screen_spec_all]; [session_acc].
    Part 3: [Inv_init], [all_accepted].
-   Hypothesis of the end result: [wf_session_gen strict fresh fargs specl quit acts] - every screen id used by the
+   Hypothesis of the end result: [wf_session_gen fresh specl quit acts] - every screen id used by the
    session is one of its screens (out of range, upd_scr is a no-op and the model's counters freeze), and, when
-   [strict], every screen is always scheduled with the arguments [fargs screen] (needed for the arguments
-   clause of chk_C06 only: finding F15), and, when [fresh], the session has no SHandlerAsk (needed for chk_once only:
-   [no_handler_objects], [wf_session_fresh]). *)
+   [fresh], the session has no SHandlerAsk (needed for chk_once only: [no_handler_objects], [wf_session_fresh]).
+   The arguments clause of chk_C06 needs no hypothesis: a request's handler carries its arguments ([ih_args],
+   invariant [c_cb_req]: the monitor's record of the request = (owner, ih_args)), put in place at delivery (fix of F15). *)
 From SL Require Import Tac.
 From RecordUpdate Require Import RecordUpdate.
 From SL Require Import PyInt LoopSem.
@@ -763,10 +763,10 @@ Definition mchk_once (m : mw) (e : event) : bool :=
 Lemma chk_once_abs w e : chk_once w e = mchk_once (absw w) e.
 Proof. reflexivity. Qed.
 
-(* [strict]: with the comparison of the arguments in chk_C06; [fresh]: with chk_once *)
-Definition mchk_all (strict fresh : bool) (quit : option nat) (nosep : list bool) (m : mw) (e : event) : bool :=
-  mchk17 nosep m e && mchk07 quit m e && mchk18 m e && mchk06 strict m e && (mchk_once m e || negb fresh).
-Definition chk_all (strict fresh : bool) quit nosep (w : sworld) (e : event) : bool := mchk_all strict fresh quit nosep (absw w) e.
+(* [mchk06 true] = chk_C06 with the comparison of the arguments; [fresh]: with chk_once *)
+Definition mchk_all (fresh : bool) (quit : option nat) (nosep : list bool) (m : mw) (e : event) : bool :=
+  mchk17 nosep m e && mchk07 quit m e && mchk18 m e && mchk06 true m e && (mchk_once m e || negb fresh).
+Definition chk_all (fresh : bool) quit nosep (w : sworld) (e : event) : bool := mchk_all fresh quit nosep (absw w) e.
 
 (* ---------------------------------------------------------------- lists, queues, pending signals *)
 From Coq Require Import Permutation.
@@ -832,6 +832,8 @@ Proof.
   apply in_map_iff. exists z. split; [exact E|]. eapply remove_first_sub, I.
 Qed.
 
+Lemma upd_nth_snoc {A} (l : list A) x (f : A -> A) : upd_nth (l ++ [x]) (length l) f = l ++ [f x].
+Proof. induction l as [|a r IH]; cbn; [reflexivity|]. rewrite IH. reflexivity. Qed.
 Lemma upd_nth_comp {A} (l : list A) : forall k (f g : A -> A), upd_nth (upd_nth l k f) k g = upd_nth l k (fun x => g (f x)).
 Proof. induction l as [|a r IH]; intros [|k] f g; cbn; auto. f_equal. apply IH. Qed.
 
@@ -1064,28 +1066,26 @@ Proof.
 Qed.
 
 (* ---------------------------------------------------------------- well-formed sessions: screen ids are in range *)
-(* [strict]: every screen is always scheduled with the arguments [fargs screen];
-   [fresh]: the application has no InputHandler objects of its own (no SHandlerAsk): every request has a fresh handler *)
-Fixpoint scmd_wf (N : nat) (strict fresh : bool) (fargs : nat -> nat) (c : scmd) : bool :=
-  let ok s a := (s <? N)%nat && (negb strict || (a =? fargs s)%nat) in
+(* [fresh]: the application has no InputHandler objects of its own (no SHandlerAsk): every request has a fresh handler *)
+Fixpoint scmd_wf (N : nat) (fresh : bool) (c : scmd) : bool :=
   match c with
-  | SPush s a | SPushModal s a | SReplace s a | SSchedule s a => ok s a
+  | SPush s _ | SPushModal s _ | SReplace s _ | SSchedule s _ => (s <? N)%nat
   | SHandlerAsk _ _ => negb fresh
-  | SIfCount _ t e => forallb (scmd_wf N strict fresh fargs) t && forallb (scmd_wf N strict fresh fargs) e
+  | SIfCount _ t e => forallb (scmd_wf N fresh) t && forallb (scmd_wf N fresh) e
   | _ => true
   end.
-Definition cmds_wf N strict fresh fargs (l : list scmd) : bool := forallb (scmd_wf N strict fresh fargs) l.
-Definition spec_wf N strict fresh fargs (sp : screen_spec) : bool :=
-  cmds_wf N strict fresh fargs (sc_refresh sp) && cmds_wf N strict fresh fargs (sc_show sp) && cmds_wf N strict fresh fargs (sc_closed sp) &&
-  forallb (fun x => cmds_wf N strict fresh fargs (fst (snd x))) (sc_input sp) && cmds_wf N strict fresh fargs (fst (sc_input_default sp)).
-Definition quit_wf N (strict fresh : bool) (fargs : nat -> nat) (quit : option nat) : bool :=
-  match quit with Some q => (q <? N)%nat && (negb strict || (0 =? fargs q)%nat) | None => true end.
-Definition acts_wf N strict fresh fargs (acts : list saction) : bool :=
-  forallb (fun a => match a with SACmds l => cmds_wf N strict fresh fargs l | SARun => true end) acts.
-Definition wf_session_gen (strict fresh : bool) fargs (specl : list screen_spec) (quit : option nat) (acts : list saction) : bool :=
-  forallb (spec_wf (length specl) strict fresh fargs) specl && quit_wf (length specl) strict fresh fargs quit &&
-  acts_wf (length specl) strict fresh fargs acts.
-Definition wf_session := wf_session_gen false false (fun _ => 0).
+Definition cmds_wf N fresh (l : list scmd) : bool := forallb (scmd_wf N fresh) l.
+Definition spec_wf N fresh (sp : screen_spec) : bool :=
+  cmds_wf N fresh (sc_refresh sp) && cmds_wf N fresh (sc_show sp) && cmds_wf N fresh (sc_closed sp) &&
+  forallb (fun x => cmds_wf N fresh (fst (snd x))) (sc_input sp) && cmds_wf N fresh (fst (sc_input_default sp)).
+Definition quit_wf N (quit : option nat) : bool :=
+  match quit with Some q => (q <? N)%nat | None => true end.
+Definition acts_wf N fresh (acts : list saction) : bool :=
+  forallb (fun a => match a with SACmds l => cmds_wf N fresh l | SARun => true end) acts.
+Definition wf_session_gen (fresh : bool) (specl : list screen_spec) (quit : option nat) (acts : list saction) : bool :=
+  forallb (spec_wf (length specl) fresh) specl && quit_wf (length specl) quit &&
+  acts_wf (length specl) fresh acts.
+Definition wf_session := wf_session_gen false.
 
 (* the application has no InputHandler objects of its own: no SHandlerAsk anywhere in the session *)
 Fixpoint scmd_noask (c : scmd) : bool :=
@@ -1210,18 +1210,16 @@ Section Scr.
   Variable typed : list (option str).
   Variable quit : option nat.
   Variable nosep : list bool.
-  Variable strict : bool.
   Variable fresh : bool.
-  Variable fargs : nat -> nat.
-  Hypothesis Hwf : forall scr, spec_wf N strict fresh fargs (specs scr) = true.
-  Hypothesis Hquit : quit_wf N strict fresh fargs quit = true.
+  Hypothesis Hwf : forall scr, spec_wf N fresh (specs scr) = true.
+  Hypothesis Hquit : quit_wf N quit = true.
   Hypothesis Hnosep : forall scr, nth scr nosep false = sc_no_separator (specs scr).
   Notation lst := (lstate sstate).
   Implicit Types s : lst.
   Implicit Types Q : outcome -> lst -> Prop.
 
-  Definition mchk := mchk_all strict fresh quit nosep.
-  Definition acc s : Prop := sacc (chk_all strict fresh quit nosep) typed s.
+  Definition mchk := mchk_all fresh quit nosep.
+  Definition acc s : Prop := sacc (chk_all fresh quit nosep) typed s.
   Notation MWs := (MW typed).
 
   Lemma acc_emit e s : acc (emit e s) <-> acc s /\ mchk (MWs s) e = true.
@@ -1236,7 +1234,7 @@ Section Scr.
     c_typed : m_typed m = st_typed u;
     c_err : forall scr, scr < N -> sc_prompt_none (specs scr) = false -> merr_of m scr = ss_err (scr_of u scr);
     c_cb_req : forall n, ih_cb (ih_of u n) = true ->
-       (exists args, alookup n (m_req m) = Some (ih_owner (ih_of u n), args)) /\ mem n (m_fired m) = false;
+       alookup n (m_req m) = Some (ih_owner (ih_of u n), ih_args (ih_of u n)) /\ mem n (m_fired m) = false;
     c_cb_no : forall n, ih_cb (ih_of u n) = false -> alookup n (m_req m) = None \/ mem n (m_fired m) = true;
     c_req_lt : forall n, length (st_ih u) <= n -> alookup n (m_req m) = None /\ mem n (m_fired m) = false;
     c_owner : forall n, ih_cb (ih_of u n) = true ->
@@ -1249,9 +1247,7 @@ Section Scr.
     c_sep : forall pa, m_prev m = Some (T_SEPARATOR, pa) -> sc_no_separator (specs (nth0 pa 0)) = false;
     c_quit : st_quit u = quit;
     c_nscr : length (st_scr u) = N;
-    c_stk_wf : forall d, In d (st_stack u) -> sd_scr d < N /\ (strict = true -> sd_args d = fargs (sd_scr d));
-    c_args : strict = true -> forall n scr args, alookup n (m_req m) = Some (scr, args) ->
-       args = fargs scr /\ ss_input_args (scr_of u scr) = args;
+    c_stk_wf : forall d, In d (st_stack u) -> sd_scr d < N;
     c_hs : hs = htable (length (st_ih u));
     c_p_ready : PSub (map triple (filter isready l)) (m_hand m);
     c_p_recv : forall sg, In sg l -> sg_cls sg = CLS_RECEIVED -> sg_data sg = m_line m;
@@ -1487,7 +1483,7 @@ Section Scr.
     destruct HQt as [HQf HQm]; cbn in HQf, HQm; subst mmu;
     pose proof HC as HC0;
     destruct HC0 as [c_stack0 c_istack0 c_proc0 c_typed0 c_err0 c_cb_req0 c_cb_no0 c_req_lt0 c_owner0 c_recv0 c_last0 c_fresh0 c_sep0 c_quit0
-                    c_nscr0 c_stk_wf0 c_args0 c_hs0 c_p_ready0 c_p_recv0 c_e_recv0 c_fl_cnt0 c_fl_proc0];
+                    c_nscr0 c_stk_wf0 c_hs0 c_p_ready0 c_p_recv0 c_e_recv0 c_fl_cnt0 c_fl_proc0];
     cbn [m_stack m_req m_typed m_line m_istack m_proc m_hand m_recv m_fired m_must m_err m_follow m_prev m_last] in *; unfold merr_of, ih_of, scr_of in *; cbn [m_err] in *.
 
   Lemma Core_cons_other m u l ex hs sg : sg_cls sg <> CLS_READY -> sg_cls sg <> CLS_RECEIVED ->
@@ -1571,12 +1567,8 @@ Section Scr.
 
   Ltac core_auto ::= constructor; mproj; auto; cbn; auto; try (intros ? E; discriminate E).
 
-  Lemma wf_ok (sc a : nat) : (sc <? N)%nat && (negb strict || (a =? fargs sc)%nat) = true ->
-    sc < N /\ (strict = true -> a = fargs sc).
-  Proof.
-    intros H. apply andb_true_iff in H. destruct H as [H1 H2]. apply Nat.ltb_lt in H1. split; [exact H1|].
-    intros ->. cbn in H2. apply Nat.eqb_eq in H2. exact H2.
-  Qed.
+  Lemma wf_ok (sc : nat) : (sc <? N)%nat = true -> sc < N.
+  Proof. apply Nat.ltb_lt. Qed.
 
   Lemma IT_enq_other sp : sp_cls sp <> CLS_READY -> sp_cls sp <> CLS_RECEIVED -> IT (PApi (AEnqueue sp)).
   Proof.
@@ -1599,10 +1591,10 @@ Section Scr.
     all: step HAt; [chk_side HQf|]; apply HQ; (eapply At_Inv; [exact HAt| |quiet_auto HQf]); core_auto.
   Qed.
 
-  Lemma IT_push (sc a : nat) : scmd_wf N strict fresh fargs (SPush sc a) = true -> forall cn self cnt, IT (do_scmd specs cn self cnt (SPush sc a)).
+  Lemma IT_push (sc a : nat) : scmd_wf N fresh (SPush sc a) = true -> forall cn self cnt, IT (do_scmd specs cn self cnt (SPush sc a)).
   Proof.
     intros WF cn self cnt n Q s0 HS HI HQ. open_inv HI. cbn [do_scmd]. unfold new_sd, ev_stack.
-    cbn [scmd_wf] in WF. apply wf_ok in WF. destruct WF as [WF1 WF2].
+    cbn [scmd_wf] in WF. apply wf_ok in WF. rename WF into WF1.
     steps HAt HQf.
     apply IT_sched_redraw; [exact HS| |exact HQ].
     eapply At_Inv; [exact HAt| |quiet_auto HQf].
@@ -1614,10 +1606,10 @@ Section Scr.
   Lemma IT_wr_first : IT (wr (fun u => u <| st_first := true |>)).
   Proof. intros n Q s HS HI HQ. open_inv HI. step HAt. apply HQ. eapply At_Inv; [exact HAt|core_auto|quiet_auto HQf]. Qed.
 
-  Lemma IT_schedule (sc a : nat) : scmd_wf N strict fresh fargs (SSchedule sc a) = true -> forall cn self cnt, IT (do_scmd specs cn self cnt (SSchedule sc a)).
+  Lemma IT_schedule (sc a : nat) : scmd_wf N fresh (SSchedule sc a) = true -> forall cn self cnt, IT (do_scmd specs cn self cnt (SSchedule sc a)).
   Proof.
     intros WF cn self cnt n Q s0 HS HI HQ. open_inv HI. cbn [do_scmd]. unfold new_sd, ev_stack.
-    cbn [scmd_wf] in WF. apply wf_ok in WF. destruct WF as [WF1 WF2].
+    cbn [scmd_wf] in WF. apply wf_ok in WF. rename WF into WF1.
     steps HAt HQf.
     assert (HI' : Inv s3).
     { eapply At_Inv; [exact HAt| |quiet_auto HQf]. core_auto.
@@ -1632,10 +1624,10 @@ Section Scr.
   Lemma b2n_eqb b : (b2n b =? 1)%nat = b.
   Proof. destruct b; reflexivity. Qed.
 
-  Lemma IT_replace (sc a : nat) : scmd_wf N strict fresh fargs (SReplace sc a) = true -> forall cn self cnt, IT (do_scmd specs cn self cnt (SReplace sc a)).
+  Lemma IT_replace (sc a : nat) : scmd_wf N fresh (SReplace sc a) = true -> forall cn self cnt, IT (do_scmd specs cn self cnt (SReplace sc a)).
   Proof.
     intros WF cn self cnt n Q s0 HS HI HQ. open_inv HI. cbn [do_scmd]. unfold new_sd, ev_stack.
-    cbn [scmd_wf] in WF. apply wf_ok in WF. destruct WF as [WF1 WF2].
+    cbn [scmd_wf] in WF. apply wf_ok in WF. rename WF into WF1.
     steps HAt HQf.
     destruct (st_stack u) as [|top r] eqn:ES.
     - apply IT_throw; [exact HS| |exact HQ]. finish_inv HAt HQf; rewrite ?ES; auto.
@@ -1695,13 +1687,13 @@ Section Scr.
     assert (LC : forall (lst : list (nat * option (bool * str))) j,
               (lst = mls \/ lst = (k, None) :: mls) ->
               ih_received (nth j (upd_nth (st_ih u) k (fun h => h <| ih_received := false |> <| ih_value := None |>))
-                 {| ih_src := None; ih_owner := 0; ih_cb := false; ih_received := false; ih_success := false; ih_value := None |}) = true ->
+                 {| ih_src := None; ih_owner := 0; ih_cb := false; ih_received := false; ih_success := false; ih_value := None; ih_args := 0 |}) = true ->
               exists v, alookup j lst = Some (Some (ih_success (nth j (upd_nth (st_ih u) k (fun h => h <| ih_received := false |> <| ih_value := None |>))
-                 {| ih_src := None; ih_owner := 0; ih_cb := false; ih_received := false; ih_success := false; ih_value := None |}), v)) /\
+                 {| ih_src := None; ih_owner := 0; ih_cb := false; ih_received := false; ih_success := false; ih_value := None; ih_args := 0 |}), v)) /\
                 (ih_success (nth j (upd_nth (st_ih u) k (fun h => h <| ih_received := false |> <| ih_value := None |>))
-                 {| ih_src := None; ih_owner := 0; ih_cb := false; ih_received := false; ih_success := false; ih_value := None |}) = true ->
+                 {| ih_src := None; ih_owner := 0; ih_cb := false; ih_received := false; ih_success := false; ih_value := None; ih_args := 0 |}) = true ->
                  ih_value (nth j (upd_nth (st_ih u) k (fun h => h <| ih_received := false |> <| ih_value := None |>))
-                 {| ih_src := None; ih_owner := 0; ih_cb := false; ih_received := false; ih_success := false; ih_value := None |}) = Some v)).
+                 {| ih_src := None; ih_owner := 0; ih_cb := false; ih_received := false; ih_success := false; ih_value := None; ih_args := 0 |}) = Some v)).
     { intros lst j HL. rewrite nth_upd_nth. destruct (j =? k)%nat eqn:EJ; cbn [andb].
       - destruct (k <? length (st_ih u))%nat eqn:LK; [cbn; discriminate|].
         apply Nat.eqb_eq in EJ. subst j. apply Nat.ltb_ge in LK. rewrite nth_overflow by exact LK. cbn. discriminate.
@@ -1788,7 +1780,7 @@ Section Scr.
   Ltac core_open HC :=
     let HC0 := fresh "HC0" in pose proof HC as HC0;
     destruct HC0 as [c_stack0 c_istack0 c_proc0 c_typed0 c_err0 c_cb_req0 c_cb_no0 c_req_lt0 c_owner0 c_recv0 c_last0 c_fresh0 c_sep0 c_quit0
-                    c_nscr0 c_stk_wf0 c_args0 c_hs0 c_p_ready0 c_p_recv0 c_e_recv0 c_fl_cnt0 c_fl_proc0];
+                    c_nscr0 c_stk_wf0 c_hs0 c_p_ready0 c_p_recv0 c_e_recv0 c_fl_cnt0 c_fl_proc0];
     cbn [m_stack m_req m_typed m_line m_istack m_proc m_hand m_recv m_fired m_must m_err m_follow m_prev m_last] in *;
     unfold merr_of, ih_of, scr_of in *; cbn [m_err] in *.
 
@@ -1802,20 +1794,22 @@ Section Scr.
             m_istack := mist; m_proc := mpr; m_hand := mhd; m_recv := mrc; m_fired := mfi; m_must := None; m_err := mer;
             m_follow := mfo; m_prev := mpv; m_last := mls |} u l ex hs ->
     (mfo' = None \/ exists q, mfo' = Some (FQuitBack q)) ->
-    sc_prompt_none (specs scr) = false -> scr < N -> (strict = true -> args = fargs scr) ->
+    sc_prompt_none (specs scr) = false -> scr < N ->
     (forall o s', Inv s' -> Q o s') ->
     W nf (wr (upd_scr scr (fun x => x <| ss_input_args := args |>)) ;;
-          new_input_handler (Some scr) scr true (fun n => handler_get_input n (sc_skip_check (specs scr)))) Q s.
+          new_input_handler (Some scr) scr true (fun n =>
+            wr (upd_ih n (fun h => h <| ih_args := args |>)) ;; handler_get_input n (sc_skip_check (specs scr)))) Q s.
   Proof.
-    intros HS HAt HC HQf PN SL SA HQ. core_open HC. unfold new_input_handler.
+    intros HS HAt HC HQf PN SL HQ. core_open HC. unfold new_input_handler.
     steps HAt HQf.
+    unfold upd_ih in HAt. cbn [st_ih set] in HAt. rewrite upd_nth_snoc in HAt. cbn [set ih_args] in HAt.
     apply t_handler_get_input; [exact HS| | |exact HQ].
     - eapply At_Inv; [exact HAt| |quiet_auto HQf].
       core_auto.
       + intros j L1 L2. rewrite nth_upd_nth. destruct ((j =? scr)%nat && (scr <? length (st_scr u))%nat); cbn; auto.
       + intros j. rewrite nth_snoc. destruct (j <? length (st_ih u))%nat eqn:L.
         * apply Nat.ltb_lt in L. assert (E : (j =? length (st_ih u))%nat = false) by (apply Nat.eqb_neq; lia). rewrite E. auto.
-        * destruct (j =? length (st_ih u))%nat eqn:E; [|cbn; discriminate]. cbn. intros _. split; [eauto|].
+        * destruct (j =? length (st_ih u))%nat eqn:E; [|cbn; discriminate]. cbn. intros _. split; [reflexivity|].
           apply Nat.eqb_eq in E. subst j. apply c_req_lt0. lia.
       + intros j. rewrite nth_snoc. destruct (j <? length (st_ih u))%nat eqn:L.
         * apply Nat.ltb_lt in L. assert (E : (j =? length (st_ih u))%nat = false) by (apply Nat.eqb_neq; lia). rewrite E. auto.
@@ -1830,12 +1824,6 @@ Section Scr.
         destruct (j =? length (st_ih u))%nat eqn:E; cbn; discriminate.
       + intros F. rewrite app_length. apply (FreshInv_len _ _ _ (length (st_ih u))); [lia|auto].
       + rewrite upd_nth_length. exact c_nscr0.
-      + intros ST j scr' args'. destruct (j =? length (st_ih u))%nat eqn:E.
-        * intros X. inversion X; subst scr' args'. split; [auto|]. rewrite nth_upd_nth. rewrite Nat.eqb_refl.
-          assert (L : (scr <? length (st_scr u))%nat = true) by (apply Nat.ltb_lt; lia). rewrite L. reflexivity.
-        * intros X. destruct (c_args0 ST j scr' args' X) as [A1 A2]. split; [exact A1|].
-          rewrite nth_upd_nth. destruct ((scr' =? scr)%nat && (scr <? length (st_scr u))%nat) eqn:C; [|exact A2].
-          apply andb_true_iff in C. destruct C as [C _]. apply Nat.eqb_eq in C. subst scr'. cbn. rewrite A1. apply SA, ST.
       + rewrite c_hs0, app_length. cbn [length]. rewrite Nat.add_1_r. apply htable_add.
     - intros F. rewrite (at_u _ _ _ _ _ _ HAt), (at_m _ _ _ _ _ _ HAt). cbn [st_ih st_istack set m_hand m_recv].
       destruct (FreshInv_new _ _ _ _ (c_fresh0 F)) as (A & B & C). rewrite app_length. cbn [length].
@@ -1843,21 +1831,19 @@ Section Scr.
   Qed.
 
 
-  Lemma IT_get_input scr args : scr < N -> (strict = true -> args = fargs scr) -> IT (get_input specs scr args).
+  Lemma IT_get_input scr args : scr < N -> IT (get_input specs scr args).
   Proof.
-    intros SL SA n Q s HS HI HQ. open_inv HI. unfold get_input.
+    intros SL n Q s HS HI HQ. open_inv HI. unfold get_input.
     destruct (sc_prompt_none (specs scr)) eqn:PN.
     - step HAt. apply HQ. eapply At_Inv; [exact HAt| |quiet_auto HQf].
       core_auto; rewrite ?upd_nth_length; auto.
       + intros j L1 L2. rewrite nth_upd_nth. destruct ((j =? scr)%nat && (scr <? length (st_scr u))%nat) eqn:C; [|auto].
         apply andb_true_iff in C. destruct C as [C _]. apply Nat.eqb_eq in C. subst j. congruence.
-      + intros ST j scr' args' X. destruct (c_args0 ST j scr' args' X) as [A1 A2]. split; [exact A1|].
-        rewrite nth_upd_nth. destruct ((scr' =? scr)%nat && (scr <? length (st_scr u))%nat); cbn; auto.
     - seqs. step HAt. step HAt; [chk_side HQf|].
       assert (FQ : match mfo with Some FReprompt => None | x => x end = None \/
                    exists q, match mfo with Some FReprompt => None | x => x end = Some (FQuitBack q)).
       { destruct HQf as [->|[q ->]]; eauto. }
-      eapply t_get_input_rest; [exact HS| |exact HC|exact FQ|exact PN|exact SL|exact SA|exact HQ].
+      eapply t_get_input_rest; [exact HS| |exact HC|exact FQ|exact PN|exact SL|exact HQ].
       destruct HQf as [->|[q ->]]; exact HAt.
   Qed.
 
@@ -1915,7 +1901,7 @@ Section Scr.
                                PApi (ANewLoop (render_spec None)) ;; ev T_MODAL_RETURN [sd_id d; sc]).
 
   Lemma t_modal_body nf sc a Q s m u l ex hs :
-    SP nf -> At s m u l ex hs -> Core m u l ex hs -> Quiet m -> sc < N -> (strict = true -> a = fargs sc) ->
+    SP nf -> At s m u l ex hs -> Core m u l ex hs -> Quiet m -> sc < N ->
     (forall o s', o <> ONormal -> Inv s' -> Q o s') ->
     (forall s' m' u' l' ex' hs', At s' m' u' l' ex' hs' -> Core m' u' l' ex' hs' -> m_must m' = None ->
         (m_follow m' = None \/
@@ -1923,7 +1909,7 @@ Section Scr.
         Q ONormal s') ->
     W nf (modal_body sc a) Q s.
   Proof.
-    intros HS HAt HC [HQf HQm] SL SA HQx HQn.
+    intros HS HAt HC [HQf HQm] SL HQx HQn.
     destruct m as [mstk mreq mty mln mist mpr mhd mrc mfi mmu mer mfo mpv mls]. cbn in HQf, HQm. subst mmu.
     core_open HC. unfold modal_body, new_sd, ev_stack.
     steps HAt HQf.
@@ -1941,17 +1927,17 @@ Section Scr.
       step HAt'; [chk_side HQf'|].
       eapply HQn; [exact HAt'| |reflexivity|].
       + clear HC c_stack0 c_istack0 c_proc0 c_typed0 c_err0 c_cb_req0 c_cb_no0 c_req_lt0 c_owner0 c_recv0 c_last0 c_fresh0 c_sep0 c_quit0
-                    c_nscr0 c_stk_wf0 c_args0 c_hs0 c_p_ready0 c_p_recv0 c_e_recv0 c_fl_cnt0 c_fl_proc0. core_open HC'. core_auto.
+                    c_nscr0 c_stk_wf0 c_hs0 c_p_ready0 c_p_recv0 c_e_recv0 c_fl_cnt0 c_fl_proc0. core_open HC'. core_auto.
       + cbn [m_follow]. destruct KP as [->|[-> ES]]; [left; reflexivity|].
         destruct HQf as [->|[q ->]]; [left; reflexivity|]. right. split; [eauto|]. split; [reflexivity|].
         cbn in ES. rewrite ES. discriminate.
   Qed.
 
-  Lemma IT_push_modal (sc a : nat) : scmd_wf N strict fresh fargs (SPushModal sc a) = true ->
+  Lemma IT_push_modal (sc a : nat) : scmd_wf N fresh (SPushModal sc a) = true ->
     forall cn self cnt, IT (do_scmd specs cn self cnt (SPushModal sc a)).
   Proof.
     intros WF cn self cnt n Q s0 HS HI HQ. open_inv HI.
-    cbn [scmd_wf] in WF. apply wf_ok in WF. destruct WF as [WF1 WF2].
+    cbn [scmd_wf] in WF. apply wf_ok in WF. rename WF into WF1.
     change (do_scmd specs cn self cnt (SPushModal sc a)) with (ev T_OP [O_PUSH_MODAL; sc; a] ;; modal_body sc a).
     step HAt. step HAt; [chk_side HQf|].
     assert (HAt' : At s {| m_stack := mstk; m_req := mreq; m_typed := mty; m_line := mln; m_istack := mist; m_proc := mpr;
@@ -1959,7 +1945,7 @@ Section Scr.
                            m_prev := Some (T_OP, [O_PUSH_MODAL; sc; a]); m_last := mls |} u l ex hs).
     { destruct HQf as [->|[q ->]]; exact HAt. }
     clear HAt.
-    eapply t_modal_body; [exact HS|exact HAt'| | |exact WF1|exact WF2| |].
+    eapply t_modal_body; [exact HS|exact HAt'| | |exact WF1| |].
     - core_auto.
     - split; [left; reflexivity|reflexivity].
     - intros o s' _ HI'. apply HQ, HI'.
@@ -2029,19 +2015,17 @@ Section Scr.
   Proof. intros n Q s HS HI HQ. open_inv HI. step HAt; [chk_side HQf|]. apply HQ. eapply At_Inv; [exact HAt|exact HC|split; auto]. Qed.
 
   Lemma IT_wr_scr scr (f : scrst -> scrst) :
-    (forall x, ss_err (f x) = ss_err x) -> (forall x, ss_input_args (f x) = ss_input_args x) -> IT (wr (upd_scr scr f)).
+    (forall x, ss_err (f x) = ss_err x) -> IT (wr (upd_scr scr f)).
   Proof.
-    intros F1 F2 n Q s HS HI HQ. open_inv HI. step HAt. apply HQ. eapply At_Inv; [exact HAt| |split; auto].
+    intros F1 n Q s HS HI HQ. open_inv HI. step HAt. apply HQ. eapply At_Inv; [exact HAt| |split; auto].
     core_auto; rewrite ?upd_nth_length; auto.
     - intros j L1 L2. rewrite nth_upd_nth. destruct ((j =? scr)%nat && (scr <? length (st_scr u))%nat); [rewrite F1|]; auto.
-    - intros ST j scr' args' X. destruct (c_args0 ST j scr' args' X) as [A1 A2]. split; [exact A1|].
-      rewrite nth_upd_nth. destruct ((scr' =? scr)%nat && (scr <? length (st_scr u))%nat); [rewrite F2|]; auto.
   Qed.
 
-  Lemma forallb_Forall_wf l : forallb (scmd_wf N strict fresh fargs) l = true -> Forall (fun c => scmd_wf N strict fresh fargs c = true) l.
+  Lemma forallb_Forall_wf l : forallb (scmd_wf N fresh) l = true -> Forall (fun c => scmd_wf N fresh c = true) l.
   Proof. intros H. apply Forall_forall. intros x I. rewrite forallb_forall in H. auto. Qed.
 
-  Lemma IT_do_scmd cn : IT cn -> forall c, scmd_wf N strict fresh fargs c = true -> forall self cnt, IT (do_scmd specs cn self cnt c).
+  Lemma IT_do_scmd cn : IT cn -> forall c, scmd_wf N fresh c = true -> forall self cnt, IT (do_scmd specs cn self cnt c).
   Proof.
     intros Hcn c. induction c using scmd_ind'.
     - intros WF self cnt. destruct c; try contradiction.
@@ -2064,25 +2048,25 @@ Section Scr.
     - intros WF self cnt. cbn [scmd_wf] in WF. apply andb_true_iff in WF. destruct WF as [W1 W2].
       apply forallb_Forall_wf in W1. apply forallb_Forall_wf in W2.
       cbn [do_scmd].
-      assert (SEQ : forall l, Forall (fun c => scmd_wf N strict fresh fargs c = true -> forall self cnt, IT (do_scmd specs cn self cnt c)) l ->
-                    Forall (fun c => scmd_wf N strict fresh fargs c = true) l ->
+      assert (SEQ : forall l, Forall (fun c => scmd_wf N fresh c = true -> forall self cnt, IT (do_scmd specs cn self cnt c)) l ->
+                    Forall (fun c => scmd_wf N fresh c = true) l ->
                     IT ((fix seq (l : list scmd) : sprog := match l with [] => PRet | x :: r => do_scmd specs cn self cnt x ;; seq r end) l)).
       { induction l as [|x r IHr]; intros F1 F2; [apply IT_ret|]. inversion F1; subst. inversion F2; subst.
         apply IT_seq; [auto|apply IHr; assumption]. }
       destruct (cnt <? k)%nat; apply SEQ; assumption.
   Qed.
 
-  Lemma IT_do_scmds cn : IT cn -> forall l, cmds_wf N strict fresh fargs l = true -> forall self cnt, IT (do_scmds specs cn self cnt l).
+  Lemma IT_do_scmds cn : IT cn -> forall l, cmds_wf N fresh l = true -> forall self cnt, IT (do_scmds specs cn self cnt l).
   Proof.
     intros Hcn l. induction l as [|x r IH]; intros WF self cnt; cbn [do_scmds]; [apply IT_ret|].
     unfold cmds_wf in WF. cbn [forallb] in WF. apply andb_true_iff in WF. destruct WF as [W1 W2].
     apply IT_seq; [apply IT_do_scmd; assumption|apply IH, W2].
   Qed.
 
-  Lemma wf_parts scr : cmds_wf N strict fresh fargs (sc_refresh (specs scr)) = true /\ cmds_wf N strict fresh fargs (sc_show (specs scr)) = true /\
-    cmds_wf N strict fresh fargs (sc_closed (specs scr)) = true /\
-    (forall x, In x (sc_input (specs scr)) -> cmds_wf N strict fresh fargs (fst (snd x)) = true) /\
-    cmds_wf N strict fresh fargs (fst (sc_input_default (specs scr))) = true.
+  Lemma wf_parts scr : cmds_wf N fresh (sc_refresh (specs scr)) = true /\ cmds_wf N fresh (sc_show (specs scr)) = true /\
+    cmds_wf N fresh (sc_closed (specs scr)) = true /\
+    (forall x, In x (sc_input (specs scr)) -> cmds_wf N fresh (fst (snd x)) = true) /\
+    cmds_wf N fresh (fst (sc_input_default (specs scr))) = true.
   Proof.
     pose proof (Hwf scr) as H. unfold spec_wf in H.
     apply andb_true_iff in H. destruct H as [H H5]. apply andb_true_iff in H. destruct H as [H H4].
@@ -2147,7 +2131,7 @@ Section Scr.
     apply IT_seq; [apply IT_ev_plain; reflexivity|apply IT_close_body].
   Qed.
 
-  Lemma IT_run_cmds self cnt l : cmds_wf N strict fresh fargs l = true -> IT (run_cmds specs self cnt l).
+  Lemma IT_run_cmds self cnt l : cmds_wf N fresh l = true -> IT (run_cmds specs self cnt l).
   Proof. intros WF. unfold run_cmds. apply IT_do_scmds; [apply IT_close_screen|exact WF]. Qed.
 
   Lemma IT_reg_source o : IT (PApi (ARegSource o)).
@@ -2176,14 +2160,10 @@ Section Scr.
   Lemma IT_ask_pages scr k : IT (ask_pages specs scr k).
   Proof. induction k as [|k IH]; cbn [ask_pages]; [apply IT_ret|]. apply IT_seq; [apply IT_get_input_blocking|exact IH]. Qed.
 
-  Ltac scr_goals c_args0 :=
+  Ltac scr_goals :=
     try (rewrite upd_nth_length; assumption);
     try (let j := fresh "j" in intros j ? ?; rewrite nth_upd_nth;
-         match goal with |- context [if ?c then _ else _] => destruct c end; cbn; now auto);
-    try (let ST := fresh "ST" in let j := fresh "j" in let scr' := fresh "scr'" in let args' := fresh "args'" in
-         let X := fresh "X" in let A1 := fresh "A1" in let A2 := fresh "A2" in
-         intros ST j scr' args' X; destruct (c_args0 ST j scr' args' X) as [A1 A2]; split; [exact A1|];
-         rewrite nth_upd_nth; match goal with |- context [if ?c then _ else _] => destruct c end; cbn; now auto).
+         match goal with |- context [if ?c then _ else _] => destruct c end; cbn; now auto).
 
   Lemma IT_draw_screen d : IT (draw_screen specs d).
   Proof.
@@ -2201,13 +2181,13 @@ Section Scr.
           destruct (nth0 pa 0 =? sd_scr d)%nat eqn:E2; [|reflexivity]. apply Nat.eqb_eq in E1, E2. subst t.
           specialize (c_sep0 pa eq_refl). rewrite E2 in c_sep0. congruence. }
         rewrite X. destruct HQf as [->|[? ->]]; reflexivity. }
-      apply IT_ask_pages; [exact HS|eapply At_Inv; [exact HAt|core_auto; scr_goals c_args0|quiet_auto HQf]|].
+      apply IT_ask_pages; [exact HS|eapply At_Inv; [exact HAt|core_auto; scr_goals|quiet_auto HQf]|].
       intros o s' HI'. destruct o as [|[| |]| |]; [ | exact (HQ' (OThrow XExit) _ HI') | exact (HQ' (OThrow XError) _ HI') | exact (HQ' (OThrow XSysExit) _ HI') | exact (HQ' OBlocked _ HI') | exact (HQ' OFuel _ HI')].
       apply IT_run_cmds; [apply wf_parts|exact HS|exact HI'|exact HQ'].
     - steps HAt HQf.
       { unfold mchk, mchk_all. cbn. rewrite Hnosep, NS. destruct HQf as [->|[? ->]]; reflexivity. }
       { unfold mchk, mchk_all. cbn. rewrite Hnosep, NS, Nat.eqb_refl. destruct HQf as [->|[? ->]]; reflexivity. }
-      apply IT_ask_pages; [exact HS|eapply At_Inv; [exact HAt|core_auto; scr_goals c_args0|quiet_auto HQf]|].
+      apply IT_ask_pages; [exact HS|eapply At_Inv; [exact HAt|core_auto; scr_goals|quiet_auto HQf]|].
       intros o s' HI'. destruct o as [|[| |]| |]; [ | exact (HQ' (OThrow XExit) _ HI') | exact (HQ' (OThrow XError) _ HI') | exact (HQ' (OThrow XSysExit) _ HI') | exact (HQ' OBlocked _ HI') | exact (HQ' OFuel _ HI')].
       apply IT_run_cmds; [apply wf_parts|exact HS|exact HI'|exact HQ'].
   Qed.
@@ -2231,7 +2211,7 @@ Section Scr.
     intros n Q s HS HI HQ. open_inv HI. unfold process_screen, with_top at 1.
     step HAt. destruct (st_stack u) as [|top r] eqn:ES.
     - apply IT_throw; [exact HS|exact HI|exact HQ].
-    - destruct (c_stk_wf0 top (or_introl eq_refl)) as [TL TA].
+    - pose proof (c_stk_wf0 top (or_introl eq_refl)) as TL.
       revert n Q s HS HI HQ HAt.
       match goal with |- forall n Q s, SP n -> Inv s -> _ -> _ -> wpS _ _ _ n ?p Q s =>
         assert (ITR : IT p); [|intros n Q s HS HI HQ _; apply ITR; assumption] end.
@@ -2389,7 +2369,7 @@ Section Scr.
         - rewrite filter_app. cbn [filter]. unfold isready at 2. cbn [sg_cls mk_signal ready_spec sp_cls]. rewrite Nat.eqb_refl.
           rewrite (filter_all isready news) by (eapply Forall_impl; [|exact FN]; intros a Ha; unfold isready; rewrite Ha; reflexivity).
           rewrite map_app. cbn [map]. rewrite EN.
-          replace (triple (mk_signal id1 (ready_spec (ih_src (nth top (st_ih u) {| ih_src := None; ih_owner := 0; ih_cb := false; ih_received := false; ih_success := false; ih_value := None |})) top (sg_data sg) true)))
+          replace (triple (mk_signal id1 (ready_spec (ih_src (nth top (st_ih u) {| ih_src := None; ih_owner := 0; ih_cb := false; ih_received := false; ih_success := false; ih_value := None; ih_args := 0 |})) top (sg_data sg) true)))
             with (top, true, mln) by (unfold triple; cbn; rewrite SD; reflexivity).
           apply PSub_handoff; [exact c_p_ready0|]. apply Permutation_map, Permutation_sym, Permutation_rev.
         - intros sg' I CR. apply in_app_or in I. destruct I as [I|[<-|I]].
@@ -2431,7 +2411,7 @@ Section Scr.
     - (* the stack is empty: ExitMainLoop *)
       eapply a_throw; [exact HAt|]. cbn [res]. apply HQ. eapply EndOK_of; [exact HAt|exact HC|reflexivity|].
       unfold mchk07. cbn [m_follow m_stack]. rewrite c_stack0. destruct act; [| | | |destruct sr]; reflexivity.
-    - destruct (c_stk_wf0 top (or_introl eq_refl)) as [TL TA].
+    - pose proof (c_stk_wf0 top (or_introl eq_refl)) as TL.
       assert (HQi : forall o s', Inv s' -> Q o s') by (intros o s' HI'; apply HQ, Inv_EndOK, HI').
       destruct act; cbn [follow_of] in *.
       + (* NOOP *)
@@ -2451,11 +2431,11 @@ Section Scr.
         eapply At_Inv; [exact HAt|core_auto; rewrite ?ES; auto|split; [left; reflexivity|reflexivity]].
       + (* QUIT *)
         eapply a_rd; [exact HAt|]. destruct (st_quit u) as [qs|] eqn:EQ.
-        * pose proof Hquit as HQU. rewrite <- c_quit0 in HQU. cbn [quit_wf] in HQU. apply wf_ok in HQU. destruct HQU as [QL QA].
+        * pose proof Hquit as HQU. rewrite <- c_quit0 in HQU. cbn [quit_wf] in HQU. apply wf_ok in HQU. rename HQU into QL.
           change (push_screen_modal specs qs 0) with (ev T_OP [O_PUSH_MODAL; qs; 0] ;; modal_body qs 0).
           apply wpS_seq. apply wpS_seq. step HAt.
           { unfold mchk, mchk_all. cbn. rewrite <- c_quit0, c_stack0. cbn. rewrite Nat.eqb_refl. reflexivity. }
-          eapply t_modal_body; [exact HS|exact HAt|core_auto; rewrite ?ES, ?EQ; auto|split; [right; eexists; reflexivity|reflexivity]|exact QL|exact QA| |].
+          eapply t_modal_body; [exact HS|exact HAt|core_auto; rewrite ?ES, ?EQ; auto|split; [right; eexists; reflexivity|reflexivity]|exact QL| |].
           -- intros o s' NO HI'. destruct o; [contradiction|..]; apply HQi, HI'.
           -- intros s' m' u' l' ex' hs' A1 C1 M1 F1. cbv beta iota.
              eapply a_rd; [exact A1|].
@@ -2474,7 +2454,7 @@ Section Scr.
                        m_follow := fo; m_prev := mpv'; m_last := mls' |} u' (mk_signal sg' (render_spec None) :: l') ex' hs').
              { intros fo sg'. apply Core_cons_other; [discriminate|discriminate|].
                clear HC c_stack0 c_istack0 c_proc0 c_typed0 c_err0 c_cb_req0 c_cb_no0 c_req_lt0 c_owner0 c_recv0 c_last0 c_fresh0 c_sep0 c_quit0
-                    c_nscr0 c_stk_wf0 c_args0 c_hs0 c_p_ready0 c_p_recv0 c_e_recv0 c_fl_cnt0 c_fl_proc0. core_open C1. core_auto. }
+                    c_nscr0 c_stk_wf0 c_hs0 c_p_ready0 c_p_recv0 c_e_recv0 c_fl_cnt0 c_fl_proc0. core_open C1. core_auto. }
              unfold sched_redraw. destruct NE as [->|[-> NE]].
              ++ eapply a_enq; [exact A1|reflexivity|]. intros s2 id H2. mnorm H2.
                 apply HQ. eapply EndOK_of; [exact H2|apply C1'|reflexivity|reflexivity].
@@ -2492,13 +2472,13 @@ Section Scr.
           -- unfold mchk07. cbn [m_follow m_stack]. rewrite c_stack0. reflexivity.
         * unfold get_input. destruct (sc_prompt_none (specs (sd_scr top))) eqn:PN.
           -- step HAt. apply HQ. eapply EndOK_of; [exact HAt| |reflexivity|].
-             ++ core_auto; rewrite ?ES; auto; scr_goals c_args0.
+             ++ core_auto; rewrite ?ES; auto; scr_goals.
                 intros j L1 L2. rewrite nth_upd_nth. destruct ((j =? sd_scr top)%nat && (sd_scr top <? length (st_scr u))%nat) eqn:C; [|auto].
                 apply andb_true_iff in C. destruct C as [C _]. apply Nat.eqb_eq in C. subst j. congruence.
              ++ unfold mchk07. cbn [m_follow m_stack]. rewrite c_stack0. reflexivity.
           -- seqs. step HAt. step HAt.
              { unfold mchk, mchk_all. cbn. rewrite c_stack0. cbn. rewrite !Nat.eqb_refl. reflexivity. }
-             eapply t_get_input_rest; [exact HS|exact HAt|exact HC|left; reflexivity|exact PN|exact TL|exact TA|exact HQi].
+             eapply t_get_input_rest; [exact HS|exact HAt|exact HC|left; reflexivity|exact PN|exact TL|exact HQi].
   Qed.
 
   Definition pi_tail (scr : nat) : sprog :=
@@ -2523,7 +2503,7 @@ Section Scr.
     all: rewrite ?nth_upd_nth, ?Nat.eqb_refl, ?L; cbn [andb ss_err set].
     5: rewrite <- ER.
     all: eapply t_pir; [exact HS|exact HAt| |exact HQ].
-    all: core_auto; scr_goals c_args0.
+    all: core_auto; scr_goals.
     all: intros j L1 L2; unfold err_in; cbn [alookup]; rewrite nth_upd_nth, L;
       destruct (j =? scr)%nat eqn:E; cbn [andb ss_err set]; [apply Nat.eqb_eq in E; subst j|apply c_err0; assumption].
     all: try reflexivity.
@@ -2548,7 +2528,7 @@ Section Scr.
             m_hand := mhd; m_recv := mrc; m_fired := mfi; m_must := None; m_err := mer;
             m_follow := mfo; m_prev := mpv; m_last := mls |} u l ex hs ->
     (mfo = None \/ exists q, mfo = Some (FQuitBack q)) ->
-    scr < N -> sc_prompt_none (specs scr) = false -> (strict = true -> ss_input_args (scr_of u scr) = args) ->
+    scr < N -> sc_prompt_none (specs scr) = false -> ss_input_args (scr_of u scr) = args ->
     (forall o s', EndOK o s' -> Q o s') -> W nf (process_input specs scr line) Q s.
   Proof.
     intros HS HAt HC HQf SL PN SA HQ. core_open HC.
@@ -2571,7 +2551,7 @@ Section Scr.
         [exact HS|exact HI'|exact K3]. }
     apply wpS_seq. step HAt. apply wpS_seq. apply wpS_try. apply wpS_seq.
     unfold call_input. eapply a_rd; [exact HAt|]. cbv zeta.
-    assert (WF : cmds_wf N strict fresh fargs
+    assert (WF : cmds_wf N fresh
                   (fst (match assoc_str line (sc_input (specs scr)) with
                         | Some (c, r) => (c, r)
                         | None => (fst (sc_input_default (specs scr)),
@@ -2587,14 +2567,14 @@ Section Scr.
               end) as [cmds rv]. cbn [fst] in WF.
     seqs. step HAt. seqs. step HAt.
     { unfold mchk, mchk_all.
-      assert (X : negb strict || (ss_input_args (nth scr (st_scr u) (scr0 default_spec)) =? args)%nat = true).
-      { destruct strict; [|reflexivity]. cbn. apply Nat.eqb_eq. apply SA. reflexivity. }
+      assert (X : negb true || (ss_input_args (nth scr (st_scr u) (scr0 default_spec)) =? args)%nat = true).
+      { cbn. apply Nat.eqb_eq. exact SA. }
       unfold mchk06, mchk17, mchk18. cbn [m_must nth0 nth T_INPUT T_READY T_SHOW T_SEPARATOR T_REFUSED T_PROMPT T_GOT Nat.eqb andb].
       change (scr_of (u <| st_rb := false |>) scr) with (nth scr (st_scr u) (scr0 default_spec)).
       rewrite Nat.eqb_refl, streq_refl, X. cbn [andb].
       destruct HQf as [->|[q ->]]; reflexivity. }
     apply (IT_seq _ _ (IT_run_cmds _ _ _ WF) (IT_wr_rv rv)); [exact HS| |].
-    { eapply At_Inv; [exact HAt|core_auto; scr_goals c_args0|quiet_auto HQf]. }
+    { eapply At_Inv; [exact HAt|core_auto; scr_goals|quiet_auto HQf]. }
     intros o s' HI'. destruct o as [|[| |]| |];
       [ | exact (K2 (OThrow XExit) _ HI') | exact (K2 (OThrow XError) _ HI') | exact (K2 (OThrow XSysExit) _ HI')
         | exact (K2 OBlocked _ HI') | exact (K2 OFuel _ HI')].
@@ -2710,6 +2690,7 @@ Section Scr.
     Core {| m_stack := mstk; m_req := mreq; m_typed := mty; m_line := mln; m_istack := mist; m_proc := mpr;
             m_hand := mhd; m_recv := mrc; m_fired := mfi; m_must := None; m_err := mer; m_follow := mfo; m_prev := mpv; m_last := mls |} u l ex hs ->
     (forall h, ih_owner (g h) = ih_owner h) ->
+    (forall h, ih_args (g h) = ih_args h) ->
     (forall h, ih_cb (g h) = if fire then false else ih_cb h) ->
     (forall h, ih_success (g h) = b) ->
     (b = true -> forall h, ih_value (g h) = Some data) ->
@@ -2722,8 +2703,8 @@ Section Scr.
             m_last := (idx, Some (b, data)) :: mls |}
          (upd_ih idx g u) l ex hs.
   Proof.
-    intros HC G1 G2 G3 G4 FI PS. core_open HC. core_auto; rewrite ?upd_nth_length; auto.
-    - intros j. ihcases j idx u; rewrite ?G1, ?G2.
+    intros HC G1 G5 G2 G3 G4 FI PS. core_open HC. core_auto; rewrite ?upd_nth_length; auto.
+    - intros j. ihcases j idx u; rewrite ?G1, ?G5, ?G2.
       + destruct fire; [discriminate|]. intros X. destruct (c_cb_req0 _ X) as [A B]. split; [exact A|exact B].
       + intros X. destruct (c_cb_req0 _ X) as [A B]. split; [exact A|]. destruct fire; [|exact B].
         rewrite mem_cons, B, orb_false_r. apply andb_false_iff in C. destruct C as [C|C]; [exact C|].
@@ -2749,6 +2730,13 @@ Section Scr.
       + apply c_last0.
     - intros F. apply FreshInv_ready; [apply c_fresh0, F|]. eapply PSub_in; [exact PS|left; reflexivity].
     - apply PSub_remove_match. exact PS.
+  Qed.
+
+  Lemma Core_upd_scr m u l ex hs scr (f : scrst -> scrst) :
+    (forall x, ss_err (f x) = ss_err x) -> Core m u l ex hs -> Core m (upd_scr scr f u) l ex hs.
+  Proof.
+    intros F1 HC. core_open HC. core_auto; rewrite ?upd_nth_length; auto.
+    intros j L1 L2. rewrite nth_upd_nth. destruct ((j =? scr)%nat && (scr <? length (st_scr u))%nat); [rewrite F1|]; auto.
   Qed.
 
   Lemma PSub_cons_mono {A} (x : A) a b : PSub a b -> PSub (x :: a) (x :: b).
@@ -2803,14 +2791,18 @@ Section Scr.
           assert (IL : idx < length (st_ih u)).
           { destruct (Nat.lt_ge_cases idx (length (st_ih u))) as [L|L]; [exact L|]. unfold ih_of in CB. rewrite nth_overflow in CB by exact L. discriminate CB. }
           assert (IL' : (idx <? length (st_ih u))%nat = true) by (apply Nat.ltb_lt, IL).
-          destruct (c_cb_req0 _ CB) as [[args RQ] FR]. destruct (c_owner0 _ CB) as [OL OP].
-          rewrite len_upd_ih, Nat.eqb_refl, IL'. cbn [andb ih_cb ih_owner set].
-          rewrite CB. rewrite (muser_ready_fire _ idx (sg_data sg) (ih_owner (ih_of u idx)) args) in H2 by (cbn [m_req m_fired]; first [exact RQ|exact FR]).
+          destruct (c_cb_req0 _ CB) as [RQ FR]. destruct (c_owner0 _ CB) as [OL OP].
+          rewrite len_upd_ih, Nat.eqb_refl, IL'. cbn [andb ih_cb ih_owner ih_args set].
+          rewrite CB. rewrite (muser_ready_fire _ idx (sg_data sg) (ih_owner (ih_of u idx)) (ih_args (ih_of u idx))) in H2 by (cbn [m_req m_fired]; first [exact RQ|exact FR]).
           unfold ready_base in H2. mnorm H2.
           apply wpS_seq. step H2. rewrite upd_ih_comp in H2.
+          (* the arguments of THIS request are put in place: _process_request_input *)
+          apply wpS_seq. step H2.
+          assert (OLb : (ih_owner (ih_of u idx) <? length (st_scr u))%nat = true) by (apply Nat.ltb_lt; rewrite c_nscr0; exact OL).
           eapply t_process_input; [exact HS|exact H2| |exact HQf|exact OL|exact OP| |].
-          -- eapply (Core_ready true true); [exact HC|reflexivity|reflexivity|reflexivity|reflexivity|intros _; split; assumption|exact PS].
-          -- intros ST. destruct (c_args0 ST _ _ _ RQ) as [_ A2]. exact A2.
+          -- apply Core_upd_scr; [reflexivity|].
+             eapply (Core_ready true true); [exact HC|reflexivity|reflexivity|reflexivity|reflexivity|reflexivity|intros _; split; assumption|exact PS].
+          -- unfold scr_of, upd_scr, upd_ih. cbn [st_scr set]. rewrite nth_upd_nth, Nat.eqb_refl, OLb. reflexivity.
           -- intros o sx EO. apply FIN; [exact EO|]. intros LE. lia.
         * rewrite len_upd_ih. destruct ((idx =? idx)%nat && (idx <? length (st_ih u))%nat); cbn [ih_cb set]; rewrite CB.
           all: rewrite (muser_ready_nofire _ idx true (sg_data sg)) in H2
@@ -2818,13 +2810,13 @@ Section Scr.
           all: unfold ready_base in H2; mnorm H2.
           all: eapply a_ret; [exact H2|]; apply FIN; [|intros LE; lia].
           all: eapply EndOK_of; [exact H2| |reflexivity|unfold mchk07; cbn [m_follow]; destruct HQf as [->|[q ->]]; reflexivity].
-          all: eapply (Core_ready false true); [exact HC|reflexivity|reflexivity|reflexivity|reflexivity|discriminate|exact PS].
+          all: eapply (Core_ready false true); [exact HC|reflexivity|reflexivity|reflexivity|reflexivity|reflexivity|discriminate|exact PS].
       + (* a failed request: only the flags are set *)
         rewrite (muser_ready_nofire _ idx false (sg_data sg)) in H2 by (left; reflexivity).
         unfold ready_base in H2. mnorm H2.
         eapply a_ret; [exact H2|]. apply FIN; [|intros LE; lia].
         eapply EndOK_of; [exact H2| |reflexivity|unfold mchk07; cbn [m_follow]; destruct HQf as [->|[q ->]]; reflexivity].
-        eapply (Core_ready false false); [exact HC|reflexivity|reflexivity|reflexivity|discriminate|discriminate|exact PS].
+        eapply (Core_ready false false); [exact HC|reflexivity|reflexivity|reflexivity|reflexivity|discriminate|discriminate|exact PS].
     - (* the signal is for another handler: nothing happens *)
       apply Nat.eqb_neq in EA.
       eapply a_ret; [exact H1|]. apply FIN.
@@ -3172,7 +3164,7 @@ Section Scr.
   Lemma res_acc Q o s : (forall o s, Q o s -> acc s) -> res acc Dead Q o s -> acc s.
   Proof. intros H R. destruct o as [|[| |]| |]; cbn in R; try exact R; try (eapply H; exact R). apply R. Qed.
 
-  Theorem session_acc fuel : forall acts s, Inv s -> acts_wf N strict fresh fargs acts = true ->
+  Theorem session_acc fuel : forall acts s, Inv s -> acts_wf N fresh acts = true ->
     acc (snd (app_session specs fuel acts s)).
   Proof.
     induction acts as [|a r IH]; intros s HI WF; cbn [app_session snd]; [apply HI|].
@@ -3202,18 +3194,18 @@ Section Scr.
 End Scr.
 
 (* ====================================================================== Part 3: every session *)
-Lemma spec_wf_default n strict fresh fargs : spec_wf n strict fresh fargs default_spec = true.
+Lemma spec_wf_default n fresh : spec_wf n fresh default_spec = true.
 Proof. reflexivity. Qed.
 
-Lemma Inv_init specs specl typed quit run_empty nosep strict fresh fargs o s1 :
+Lemma Inv_init specs specl typed quit run_empty nosep fresh o s1 :
   exec (screen_code specs) 20 (CProg app_initialize) (init_state (sstate0 specl typed quit run_empty)) = (o, s1) ->
-  Inv specs (length specl) typed quit nosep strict fresh fargs s1.
+  Inv specs (length specl) typed quit nosep fresh s1.
 Proof.
   intros E. cbn in E. inversion E; subst o s1. clear E.
   unfold Inv. split; [reflexivity|]. split; [repeat constructor|]. split.
   - unfold MW, SW, pendl. cbn.
-    assert (D : forall n, nth n (@nil ihandler) {| ih_src := None; ih_owner := 0; ih_cb := false; ih_received := false; ih_success := false; ih_value := None |} =
-                          {| ih_src := None; ih_owner := 0; ih_cb := false; ih_received := false; ih_success := false; ih_value := None |})
+    assert (D : forall n, nth n (@nil ihandler) {| ih_src := None; ih_owner := 0; ih_cb := false; ih_received := false; ih_success := false; ih_value := None; ih_args := 0 |} =
+                          {| ih_src := None; ih_owner := 0; ih_cb := false; ih_received := false; ih_success := false; ih_value := None; ih_args := 0 |})
       by (intros [|n]; reflexivity).
     constructor; cbn [m_stack m_req m_typed m_line m_istack m_proc m_hand m_recv m_fired m_must m_err m_follow m_prev merr_of
                       st_stack st_istack st_processing st_typed st_ih st_quit st_scr sstate0 map length].
@@ -3230,7 +3222,6 @@ Proof.
     + reflexivity.
     + apply map_length.
     + intros d [].
-    + intros _ n scr args X. discriminate X.
     + reflexivity.
     + apply PSub_refl.
     + intros sg [].
@@ -3240,9 +3231,9 @@ Proof.
   - split; [left; reflexivity|reflexivity].
 Qed.
 
-Lemma wf_specs_all strict fresh fargs specs specl : (forall n, specs n = nth n specl default_spec) ->
-  forallb (spec_wf (length specl) strict fresh fargs) specl = true ->
-  forall scr, spec_wf (length specl) strict fresh fargs (specs scr) = true.
+Lemma wf_specs_all fresh specs specl : (forall n, specs n = nth n specl default_spec) ->
+  forallb (spec_wf (length specl) fresh) specl = true ->
+  forall scr, spec_wf (length specl) fresh (specs scr) = true.
 Proof.
   intros HS WF scr. rewrite HS. destruct (Nat.lt_ge_cases scr (length specl)) as [L|L].
   - rewrite forallb_forall in WF. apply WF. apply nth_In, L.
@@ -3260,24 +3251,24 @@ Proof.
   destruct (g x), (h x), (forallb g r), (forallb h r); reflexivity.
 Qed.
 
-Lemma scmd_wf_fresh N strict fargs c :
-  scmd_wf N strict true fargs c = scmd_wf N strict false fargs c && scmd_noask c.
+Lemma scmd_wf_fresh N c :
+  scmd_wf N true c = scmd_wf N false c && scmd_noask c.
 Proof.
   induction c using scmd_ind'.
   - destruct c; try contradiction; cbn; rewrite ?andb_true_r; reflexivity.
   - cbn [scmd_wf scmd_noask]. rewrite (forallb_and_split _ _ _ t H), (forallb_and_split _ _ _ e H0).
-    destruct (forallb (scmd_wf N strict false fargs) t), (forallb scmd_noask t),
-             (forallb (scmd_wf N strict false fargs) e), (forallb scmd_noask e); reflexivity.
+    destruct (forallb (scmd_wf N false) t), (forallb scmd_noask t),
+             (forallb (scmd_wf N false) e), (forallb scmd_noask e); reflexivity.
 Qed.
 
-Lemma cmds_wf_fresh N strict fargs l :
-  cmds_wf N strict true fargs l = cmds_wf N strict false fargs l && forallb scmd_noask l.
+Lemma cmds_wf_fresh N l :
+  cmds_wf N true l = cmds_wf N false l && forallb scmd_noask l.
 Proof. unfold cmds_wf. apply forallb_and_split. apply Forall_forall. intros c _. apply scmd_wf_fresh. Qed.
 
 (* a well-formed session without InputHandler objects of the application's own *)
-Lemma wf_session_fresh strict fargs specl quit acts :
-  wf_session_gen strict false fargs specl quit acts = true -> no_handler_objects specl acts = true ->
-  wf_session_gen strict true fargs specl quit acts = true.
+Lemma wf_session_fresh specl quit acts :
+  wf_session_gen false specl quit acts = true -> no_handler_objects specl acts = true ->
+  wf_session_gen true specl quit acts = true.
 Proof.
   unfold wf_session_gen, no_handler_objects. intros W NO.
   apply andb_true_iff in W. destruct W as [W W3]. apply andb_true_iff in W. destruct W as [W1 W2].
@@ -3294,18 +3285,18 @@ Proof.
 Qed.
 
 (* every event of every well-formed session is accepted by the acceptors together *)
-Theorem all_accepted strict fresh fargs specs specl typed quit run_empty fuel acts :
+Theorem all_accepted fresh specs specl typed quit run_empty fuel acts :
   (forall n, specs n = nth n specl default_spec) ->
-  wf_session_gen strict fresh fargs specl quit acts = true ->
-  sok (chk_all strict fresh quit (map sc_no_separator specl)) typed
+  wf_session_gen fresh specl quit acts = true ->
+  sok (chk_all fresh quit (map sc_no_separator specl)) typed
       (rev (trace (snd (app_run_all specs specl typed quit run_empty fuel acts)))) = true.
 Proof.
   intros HS WF. unfold wf_session_gen in WF.
   apply andb_true_iff in WF. destruct WF as [WF W3]. apply andb_true_iff in WF. destruct WF as [W1 W2].
   unfold app_run_all.
   destruct (exec (screen_code specs) 20 (CProg app_initialize) (init_state (sstate0 specl typed quit run_empty))) as [o s1] eqn:E.
-  apply (session_acc specs (length specl) typed quit (map sc_no_separator specl) strict fresh fargs
-           (wf_specs_all strict fresh fargs specs specl HS W1) W2 (nosep_nth specs specl HS) fuel acts s1).
+  apply (session_acc specs (length specl) typed quit (map sc_no_separator specl) fresh
+           (wf_specs_all fresh specs specl HS W1) W2 (nosep_nth specs specl HS) fuel acts s1).
   - eapply Inv_init; exact E.
   - exact W3.
 Qed.
